@@ -176,10 +176,21 @@ func (m mapImporter) Import(path string) (*types.Package, error) {
 // inlined. Any internal failure leaves the overlay as it was.
 func normaliseHelpers(repo string, overlay map[string][]byte, tags string) (map[string][]byte, *NormaliseNote) {
 	newFns, err := scanNewFuncs(repo, overlay)
-	if err != nil || len(newFns) == 0 {
+	renames := scanRenames(repo, overlay)
+	if err != nil || (len(newFns) == 0 && len(renames) == 0) {
 		return overlay, nil
 	}
 	note := &NormaliseNote{}
+	if len(renames) > 0 {
+		if ov, done := applyRenames(repo, overlay, tags, renames); len(done) > 0 {
+			overlay = ov
+			note.Inlined = append(note.Inlined, done...)
+			newFns, _ = scanNewFuncs(repo, overlay)
+			if len(newFns) == 0 {
+				return overlay, note
+			}
+		}
+	}
 	for _, ks := range newFns {
 		note.NewFuncs = append(note.NewFuncs, ks...)
 	}
@@ -1049,4 +1060,387 @@ func unwrapCalledLiterals(p *packages.Package, imps mapImporter, src map[string]
 			return
 		}
 	}
+}
+
+// ---------------------------------------------------------------------------------------------
+// Renames. The rules name their anchors (functions, methods, struct fields of the two packages).
+// A maintainer who renames an unexported one changes no behaviour but every rule anchored there
+// would report ANCHOR. When a name of the pinned tree is missing and exactly one declaration that
+// the pinned tree does not have carries the same signature (same receiver type) / the same field
+// type in the same struct, the declaration is renamed back - all its references, found through the
+// type checker - in the overlay the rules analyse. Only unexported names are considered.
+
+type renameCand struct {
+	dir      string
+	kind     string // func | field
+	owner    string // receiver or struct type name ("" for a plain function)
+	from, to string
+}
+
+func scanRenames(repo string, overlay map[string][]byte) []renameCand {
+	var out []renameCand
+	for _, dir := range []string{"gbn", "mailbox"} {
+		ents, err := os.ReadDir(filepath.Join(repo, dir))
+		if err != nil {
+			return nil
+		}
+		fset := token.NewFileSet()
+		haveF := map[string]string{} // key -> sig
+		haveFld := map[string]string{}
+		for _, e := range ents {
+			n := e.Name()
+			if e.IsDir() || !strings.HasSuffix(n, ".go") || strings.HasSuffix(n, "_test.go") {
+				continue
+			}
+			path := filepath.Join(repo, dir, n)
+			var src any
+			if b, ok := overlay[path]; ok {
+				src = b
+			}
+			f, err := parser.ParseFile(fset, path, src, parser.SkipObjectResolution)
+			if err != nil {
+				return nil
+			}
+			for _, d := range f.Decls {
+				switch x := d.(type) {
+				case *ast.FuncDecl:
+					if x.Body != nil {
+						haveF[declKey(dir, x)] = sigText(fset, x.Type)
+					}
+				case *ast.GenDecl:
+					for _, sp := range x.Specs {
+						if ts, ok := sp.(*ast.TypeSpec); ok {
+							if stt, ok := ts.Type.(*ast.StructType); ok {
+								for _, fl := range stt.Fields.List {
+									for _, nm := range fl.Names {
+										haveFld["field "+dir+"."+ts.Name.Name+"."+nm.Name] = nodeText(fset, fl.Type)
+									}
+								}
+							}
+						}
+					}
+				}
+			}
+		}
+		split := func(key string) (owner, name string) {
+			k := strings.TrimPrefix(strings.TrimPrefix(key, "field "), dir+".")
+			if i := strings.LastIndex(k, "."); i >= 0 {
+				return k[:i], k[i+1:]
+			}
+			return "", k
+		}
+		match := func(kind string, known map[string]string, have map[string]string) {
+			for mk, msig := range known {
+				if (kind == "field") != strings.HasPrefix(mk, "field ") {
+					continue
+				}
+				if !strings.HasPrefix(strings.TrimPrefix(mk, "field "), dir+".") {
+					continue
+				}
+				if _, ok := have[mk]; ok {
+					continue
+				}
+				mo, mn := split(mk)
+				if ast.IsExported(mn) {
+					continue
+				}
+				var cands []string
+				for hk, hsig := range have {
+					if _, isKnown := known[hk]; isKnown || hsig != msig {
+						continue
+					}
+					ho, hn := split(hk)
+					if ho == mo && !ast.IsExported(hn) {
+						cands = append(cands, hn)
+					}
+				}
+				if len(cands) == 1 {
+					out = append(out, renameCand{dir: dir, kind: kind, owner: mo, from: cands[0], to: mn})
+				}
+			}
+		}
+		knownF, knownFld := map[string]string{}, map[string]string{}
+		for k, v := range knownSigs {
+			if strings.HasPrefix(k, "field ") {
+				knownFld[k] = v
+			} else {
+				knownF[k] = v
+			}
+		}
+		match("func", knownF, haveF)
+		match("field", knownFld, haveFld)
+		// a method of the pinned tree that is now a plain function taking the receiver first
+		// (`func (s *T) m(a A)` -> `func m2(s *T, a A)`): kind "unmethod"
+		for mk, msig := range knownF {
+			if !strings.HasPrefix(mk, dir+".(") {
+				continue
+			}
+			if _, ok := haveF[mk]; ok {
+				continue
+			}
+			mo, mn := split(mk) // "(T)", name
+			tname := strings.Trim(mo, "()")
+			if ast.IsExported(mn) {
+				continue
+			}
+			rest := strings.TrimPrefix(msig, "(")
+			var cands []string
+			for hk, hsig := range haveF {
+				if _, isKnown := knownF[hk]; isKnown || strings.Contains(hk, ".(") {
+					continue
+				}
+				for _, recv := range []string{"*" + tname, tname} {
+					want := "(" + recv
+					if strings.HasPrefix(rest, ")") {
+						want += rest
+					} else {
+						want += ", " + rest
+					}
+					if hsig == want {
+						_, hn := split(hk)
+						cands = append(cands, hn)
+					}
+				}
+			}
+			if len(cands) == 1 {
+				out = append(out, renameCand{dir: dir, kind: "unmethod", owner: tname, from: cands[0], to: mn})
+			}
+		}
+	}
+	// a new name claimed by two missing ones is ambiguous
+	cnt := map[string]int{}
+	for _, r := range out {
+		cnt[r.dir+r.kind+r.owner+r.from]++
+	}
+	var res []renameCand
+	for _, r := range out {
+		if cnt[r.dir+r.kind+r.owner+r.from] == 1 {
+			res = append(res, r)
+		}
+	}
+	sort.Slice(res, func(i, j int) bool { return res[i].dir+res[i].owner+res[i].to < res[j].dir+res[j].owner+res[j].to })
+	return res
+}
+
+func applyRenames(repo string, overlay map[string][]byte, tags string, renames []renameCand) (map[string][]byte, []string) {
+	defer func() { _ = recover() }()
+	cfg := &packages.Config{
+		Mode:    packages.LoadAllSyntax,
+		Dir:     filepath.Join(repo, "mailbox"),
+		Overlay: overlay,
+		Env:     append(os.Environ(), "GOWORK=off", "GOFLAGS=-mod=mod"),
+	}
+	if strings.HasPrefix(tags, "env:") {
+		cfg.Env = append(cfg.Env, strings.Fields(strings.TrimPrefix(tags, "env:"))...)
+	} else if tags != "" {
+		cfg.BuildFlags = []string{"-tags=" + tags}
+	}
+	pkgs, err := packages.Load(cfg, ".", gbnPath)
+	if err != nil {
+		return overlay, nil
+	}
+	out := map[string][]byte{}
+	for k, v := range overlay {
+		out[k] = v
+	}
+	var done []string
+	bad := false
+	packages.Visit(pkgs, nil, func(p *packages.Package) {
+		if len(p.Errors) > 0 {
+			bad = true
+		}
+	})
+	if bad {
+		return overlay, nil
+	}
+	packages.Visit(pkgs, nil, func(p *packages.Package) {
+		dir := ""
+		switch p.PkgPath {
+		case gbnPath:
+			dir = "gbn"
+		case mboxPath:
+			dir = "mailbox"
+		default:
+			return
+		}
+		type edit struct {
+			file     string
+			from, to int
+			text     string
+		}
+		var edits []edit
+		for _, r := range renames {
+			if r.dir != dir || r.kind != "unmethod" {
+				continue
+			}
+			fobj, _ := p.Types.Scope().Lookup(r.from).(*types.Func)
+			if fobj == nil {
+				continue
+			}
+			// every use must be the callee of a call with at least one argument
+			okAll := true
+			var calls []*ast.CallExpr
+			var decl *ast.FuncDecl
+			for _, f := range p.Syntax {
+				ast.Inspect(f, func(n ast.Node) bool {
+					switch x := n.(type) {
+					case *ast.FuncDecl:
+						if p.TypesInfo.Defs[x.Name] == types.Object(fobj) {
+							decl = x
+						}
+					case *ast.CallExpr:
+						if id, ok := x.Fun.(*ast.Ident); ok && p.TypesInfo.Uses[id] == types.Object(fobj) {
+							if len(x.Args) == 0 || x.Ellipsis.IsValid() {
+								okAll = false
+							}
+							calls = append(calls, x)
+						}
+					}
+					return true
+				})
+			}
+			nUses := 0
+			for _, o := range p.TypesInfo.Uses {
+				if o == types.Object(fobj) {
+					nUses++
+				}
+			}
+			if !okAll || decl == nil || nUses != len(calls) || decl.Type.Params == nil || len(decl.Type.Params.List) == 0 || len(decl.Type.Params.List[0].Names) != 1 {
+				continue
+			}
+			off := func(pos token.Pos) (string, int) { ps := p.Fset.Position(pos); return ps.Filename, ps.Offset }
+			// declaration: func NAME(recv T, rest) -> func (recv T) to(rest)
+			first := decl.Type.Params.List[0]
+			file, nameFrom := off(decl.Name.Pos())
+			_, lparen := off(decl.Type.Params.Opening)
+			_, firstFrom := off(first.Pos())
+			_, firstEnd := off(first.End())
+			srcb, ok := out[file]
+			if !ok {
+				var err error
+				if srcb, err = os.ReadFile(file); err != nil {
+					continue
+				}
+			}
+			recvText := string(srcb[firstFrom:firstEnd])
+			restFrom := firstEnd
+			if len(decl.Type.Params.List) > 1 {
+				_, restFrom = off(decl.Type.Params.List[1].Pos())
+			}
+			edits = append(edits, edit{file, nameFrom, restFrom, "(" + recvText + ") " + r.to + "("})
+			_ = lparen
+			for _, c := range calls {
+				cf, cFrom := off(c.Fun.Pos())
+				_, a0From := off(c.Args[0].Pos())
+				_, a0End := off(c.Args[0].End())
+				cb, ok := out[cf]
+				if !ok {
+					var err error
+					if cb, err = os.ReadFile(cf); err != nil {
+						okAll = false
+						break
+					}
+				}
+				a0 := string(cb[a0From:a0End])
+				next := a0End
+				if len(c.Args) > 1 {
+					_, next = off(c.Args[1].Pos())
+				}
+				edits = append(edits, edit{cf, cFrom, next, "(" + a0 + ")." + r.to + "("})
+			}
+			done = append(done, fmt.Sprintf("function %s.%s(%s, ...) turned back into the method (%s).%s (%d calls)", dir, r.from, r.owner, r.owner, r.to, len(calls)))
+		}
+		for _, r := range renames {
+			if r.dir != dir || r.kind == "unmethod" {
+				continue
+			}
+			// the object
+			var obj types.Object
+			for id, o := range p.TypesInfo.Defs {
+				if o == nil || id.Name != r.from {
+					continue
+				}
+				switch x := o.(type) {
+				case *types.Func:
+					if r.kind != "func" {
+						continue
+					}
+					recv := x.Type().(*types.Signature).Recv()
+					owner := ""
+					if recv != nil {
+						if n := namedOfType(recv.Type()); n != nil {
+							owner = "(" + n.Obj().Name() + ")"
+						}
+					}
+					if owner == r.owner {
+						obj = o
+					}
+				case *types.Var:
+					if r.kind == "field" && x.IsField() {
+						// the struct that declares it
+						if tn, ok := p.Types.Scope().Lookup(r.owner).(*types.TypeName); ok {
+							if stt, ok := tn.Type().Underlying().(*types.Struct); ok {
+								for k := 0; k < stt.NumFields(); k++ {
+									if stt.Field(k) == x {
+										obj = o
+									}
+								}
+							}
+						}
+					}
+				}
+			}
+			if obj == nil {
+				continue
+			}
+			n := 0
+			add := func(id *ast.Ident) {
+				pos := p.Fset.Position(id.Pos())
+				edits = append(edits, edit{pos.Filename, pos.Offset, pos.Offset + len(id.Name), r.to})
+				n++
+			}
+			for id, o := range p.TypesInfo.Defs {
+				if o == obj {
+					add(id)
+				}
+			}
+			for id, o := range p.TypesInfo.Uses {
+				if o == obj {
+					add(id)
+				}
+			}
+			done = append(done, fmt.Sprintf("renamed %s.%s%s back to %s (%d references)", dir, map[bool]string{true: r.owner + ".", false: ""}[r.owner != ""], r.from, r.to, n))
+		}
+		byFile := map[string][]edit{}
+		for _, e := range edits {
+			byFile[e.file] = append(byFile[e.file], e)
+		}
+		for file, es := range byFile {
+			if strings.HasSuffix(file, "_test.go") {
+				continue
+			}
+			b, ok := out[file]
+			if !ok {
+				var err error
+				if b, err = os.ReadFile(file); err != nil {
+					continue
+				}
+			}
+			sort.Slice(es, func(i, j int) bool { return es[i].from > es[j].from })
+			nb := append([]byte(nil), b...)
+			for _, e := range es {
+				nb = append(nb[:e.from], append([]byte(e.text), nb[e.to:]...)...)
+			}
+			out[file] = nb
+		}
+	})
+	return out, done
+}
+
+func namedOfType(t types.Type) *types.Named {
+	if p, ok := t.(*types.Pointer); ok {
+		t = p.Elem()
+	}
+	n, _ := t.(*types.Named)
+	return n
 }
